@@ -291,6 +291,14 @@ impl MultiState {
             return Ok(());
         }
 
+        if self.draw_target.is_hidden() {
+            // Nothing can be drawn: lines printed through a member bar are dropped like
+            // everything else (they would otherwise pile up and appear, late and out of order,
+            // should the target become visible).
+            self.orphan_lines.clear();
+            return Ok(());
+        }
+
         let width = match self.width() {
             Some(width) => width as usize,
             None => return Ok(()),
